@@ -53,7 +53,7 @@ type c18Merge struct {
 
 func init() {
 	register(&Prop{ID: "C18", Run: c18Run,
-		Rule: "histories of AddDocument / AddUnnamedDocument / AddDocumentFromReader / AddDocumentFromFile (<= 30 adds quick, <= 200 thorough) over a name pool of 5 (so re-adds occur), tag pool {t1,t2,t3,*,\"\"}, options none / WithTags / MergeTags / MustCreate (WithTags combined with a policy as the API is used), malformed reader text and missing files; two in five re-adds of a registered name carry content EQUAL to the stored one (the same reader / file text loaded again, an equal document built separately, a Clone() of the served document), half of them with no option at all, the others with MergeTags, MustCreate or generated options; after every add: TaggedSubset for 4 tag sets, AsOne, NamedDocument for every pool name and an unknown one. Every document carries a unique id so a stale document is visible; for equal content the served INSTANCE is compared by identity with the one handed to the registering call (after every step, for every registered name). Kind `combo` (model comparison and no-panic only) also mixes MergeTags+MustCreate on one call and explicit names of the form default__N. Kind `mergefiles` runs the pipeline template function mergeFiles over generated files. One add in eight registers the very INSTANCE already served under some name (another name or its own); one reader add in seven reads a well-formed text through a reader that reports an I/O error part-way (bad input: an error, nothing registered); every TaggedSubset query is asked twice and with its tags reversed. Kind `bigdocs` (direct predicates only): one document whose YAML / JSON text has an exact size just under / at / just over 512 B, 4 KiB, 64 KiB, 1 MiB (bulk: one long string, many keys, a long list; multi-byte characters across the threshold offset), registered through AddDocumentFromReader (whole / chunked / data+EOF reader, after readers failing part-way), AddDocumentFromFile and AddDocument(FromMap) between two small documents: every view serves the generated document under all three names and the three are Equal. A history is non-trivial when it re-adds at least one name; distinct = distinct canonical case JSON.",
+		Rule: "histories of AddDocument / AddUnnamedDocument / AddDocumentFromReader / AddDocumentFromFile (<= 30 adds quick, <= 200 thorough) over a name pool of 5 (so re-adds occur), tag pool {t1,t2,t3,*,\"\"}, options none / WithTags / MergeTags / MustCreate (WithTags combined with a policy as the API is used), malformed reader text and missing files; two in five re-adds of a registered name carry content EQUAL to the stored one (the same reader / file text loaded again, an equal document built separately, a Clone() of the served document), half of them with no option at all, the others with MergeTags, MustCreate or generated options; after every add: TaggedSubset for 4 tag sets, AsOne, NamedDocument for every pool name and an unknown one. Every document carries a unique id so a stale document is visible; for equal content the served INSTANCE is compared by identity with the one handed to the registering call (after every step, for every registered name). Kind `combo` (model comparison and no-panic only) also mixes MergeTags+MustCreate on one call and explicit names of the form default__N. Kind `mergefiles` runs the pipeline template function mergeFiles over generated files. One add in eight registers the very INSTANCE already served under some name (another name or its own); one reader add in seven reads a well-formed text through a reader that reports an I/O error part-way (bad input: an error, nothing registered); every TaggedSubset query is asked twice and with its tags reversed. Kind `bigdocs` (direct predicates only): one document whose YAML / JSON text has an exact size just under / at / just over 512 B, 4 KiB, 64 KiB, 1 MiB (bulk: one long string, many keys, a long list; multi-byte characters across the threshold offset), registered through AddDocumentFromReader (whole / chunked / data+EOF reader, after readers failing part-way), AddDocumentFromFile and AddDocument(FromMap) between two small documents: every view serves the generated document under all three names and the three are Equal. VALUE RANGE (c18_names.go): half of the histories draw their five names - and, independently, half draw their five tags ('*' always among them) - from families of confusable spellings: path-like names differing in doubled / trailing separators, './' prefixes, '.' and '..' segments; letter-case twins; leading / trailing / inner white space (space, tab, NBSP, line break); Unicode composition twins, supplementary-plane characters, U+FFFD; characters that look like syntax; digit strings around 2^63 / 2^64; boolean / null spellings; the empty string (a name like any other); prefixes of each other; near misses of default__N. Two names (tags) are the same exactly when they are the same string: every clause is evaluated with string identity, NamedDocument is also asked for up to three further members of the same families that were never registered (nil), TaggedSubset for never-given sibling tags. One document in seven is EMPTY (no keys at all, through every entry point: a document like any other - registered, served, kept by must-create / merge-tags), one in fourteen holds only an empty-but-present value (empty container / empty list / \"\" / null); string leaves include white-space, case and digit-string variants. A history is non-trivial when it re-adds at least one name; distinct = distinct canonical case JSON.",
 		Assumptions: []string{
 			"documents are non-nil containers with path-safe keys (no key ends in an index group)",
 			"the YAML/JSON decoding of reader/file documents is C01's concern: the expected document is what dom.Builder().FromReader yields on the same text",
@@ -101,7 +101,7 @@ func c18Shrink(kind string, raw []byte) [][]byte {
 var c18Names = []string{"a", "b", "c", "d/e.yaml", "n5"}
 var c18Tags = []string{"t1", "t2", "t3", "*", ""}
 
-func c18GenOpts(r *rand.Rand, combo bool) []c18Opt {
+func c18GenOpts(r *rand.Rand, combo bool, tags []string) []c18Opt {
 	var opts []c18Opt
 	nt := []int{0, 0, 1, 1, 1, 2}[r.Intn(6)]
 	tagOpt := func() c18Opt {
@@ -111,7 +111,7 @@ func c18GenOpts(r *rand.Rand, combo bool) []c18Opt {
 		}
 		ts := make([]string, n)
 		for i := range ts {
-			ts[i] = pick(r, c18Tags)
+			ts[i] = pick(r, tags)
 		}
 		return c18Opt{K: "tags", Tags: ts}
 	}
@@ -140,12 +140,14 @@ func c18GenCase(r *rand.Rand, n int, combo bool) c18Case {
 	g := stdGen()
 	g.MaxDepth, g.MaxWidth, g.ListMax = 2, 2, 2
 	g.Types = []string{"int", "string", "bool"}
-	g.Strings = []string{"", "s", "x y", "héllo", "1"}
-	names := append([]string{}, c18Names...)
+	g.Strings = []string{"", "s", "x y", "héllo", "1", " s", "s ", "S", "\U0001F680", "\ufffd", "a\nb", "18446744073709551616", "1e3", "~", "{}"}
+	// names and tags: the classic pools, or (half of the histories) pools of confusable spellings (c18_names.go)
+	names, nameProbes := c18PickNames(r)
+	tags, tagProbes := c18PickTags(r)
 	if combo {
 		names = append(names, "default__1", "default__2")
 	}
-	cs := c18Case{Names: append(append([]string{}, names...), "unknown", "default__1", "@/f1.yaml", "@/f1.json", "@/f2.yaml", "@/f2.json"), Ops: []c18Op{}}
+	cs := c18Case{Names: append(append(append([]string{}, names...), nameProbes...), "unknown", "default__1", "@/f1.yaml", "@/f1.json", "@/f2.yaml", "@/f2.json"), Ops: []c18Op{}}
 	// what the set holds under a name if it follows the property (the generator's own bookkeeping, used only to
 	// aim re-adds at EQUAL content: the same text loaded twice, an equal document built separately, a clone)
 	type held struct {
@@ -158,7 +160,16 @@ func c18GenCase(r *rand.Rand, n int, combo bool) c18Case {
 		if m, ok := wireCont(doc); ok {
 			m["id"] = scalarWire(i) // unique marker: a stale document is visible
 		}
-		op := c18Op{Name: pick(r, names), Doc: doc, Opts: c18GenOpts(r, combo)}
+		switch r.Intn(14) {
+		case 0, 1:
+			// an EMPTY document is a document like any other: registered, served, kept by must-create / merge-tags
+			// (no marker: what is served is told apart by instance identity)
+			doc = map[string]any{"m": map[string]any{}}
+		case 2:
+			// explicitly empty-but-present values only
+			doc = map[string]any{"m": map[string]any{pick(r, []string{"e", "id"}): pick(r, []W{map[string]any{"m": map[string]any{}}, []any{}, scalarWire(""), scalarWire(nil)})}}
+		}
+		op := c18Op{Name: pick(r, names), Doc: doc, Opts: c18GenOpts(r, combo, tags)}
 		switch k := r.Intn(20); {
 		case k < 10:
 			op.K = "add"
@@ -240,7 +251,7 @@ func c18GenCase(r *rand.Rand, n int, combo bool) c18Case {
 		n := 1 + r.Intn(2)
 		q := make([]string, n)
 		for i := range q {
-			q[i] = pick(r, append(c18Tags, "zz"))
+			q[i] = pick(r, append(append(append([]string{}, tags...), tagProbes...), "zz"))
 		}
 		qs = append(qs, q)
 	}
@@ -463,6 +474,23 @@ func c18Eval(c *Ctx, kind string, raw []byte) {
 		return n
 	}
 	c.Dist(fmt.Sprintf("history-len:%02d+", len(cs.Ops)/10*10))
+	{
+		var opNames, opTags []string
+		for _, op := range cs.Ops {
+			if op.K == "add" || op.K == "reader" {
+				opNames = append(opNames, op.Name)
+			}
+			for _, o := range op.Opts {
+				opTags = append(opTags, o.Tags...)
+			}
+		}
+		for _, sh := range c18PoolShape(opNames) {
+			c.Dist("names:" + sh)
+		}
+		for _, sh := range c18PoolShape(opTags) {
+			c.Dist("tags:" + sh)
+		}
+	}
 
 	ds := analytics.NewDocumentSet()
 	ref := &c18Ref{order: []string{}, docs: map[string]string{}, tags: map[string]map[string]bool{}}
@@ -569,10 +597,11 @@ func c18Eval(c *Ctx, kind string, raw []byte) {
 		}
 		c.Dist("policy:" + policy)
 		refName := strip(name)
+		haveName := true // "" is a name like any other
 		expectErr := false
 		if op.K == "unnamed" {
 			// the generated name is whatever new layer name appeared
-			refName = ""
+			refName, haveName = "", false
 			var fresh []string
 			for _, n := range asOne.Names {
 				if _, ok := ref.docs[n]; !ok {
@@ -583,7 +612,7 @@ func c18Eval(c *Ctx, kind string, raw []byte) {
 				c.Direct("unnamed-gets-one-fresh-name", err == nil && len(fresh) == 1, map[string]any{"step": i, "fresh": fresh, "err": errTag(err)})
 			}
 			if len(fresh) == 1 {
-				refName = fresh[0]
+				refName, haveName = fresh[0], true
 				for _, g := range generated {
 					c.Direct("unnamed-names-distinct", g != refName, map[string]any{"step": i, "name": refName})
 				}
@@ -596,10 +625,13 @@ func c18Eval(c *Ctx, kind string, raw []byte) {
 			if failing {
 				c.Dist("input-error:reader-fails-part-way")
 			}
-		} else if refName != "" {
+		} else if haveName {
 			if old, exists := ref.docs[refName]; exists {
 				readds++
 				c.Dist("readd:" + policy)
+				if old == `{"m":{}}` {
+					c.Dist("readd-over-empty-stored-document:" + policy)
+				}
 				if old == canon(docW) {
 					c.Dist("readd-equal-content:" + policy)
 					if len(op.Opts) == 0 {
@@ -624,7 +656,7 @@ func c18Eval(c *Ctx, kind string, raw []byte) {
 			}
 		}
 		step := map[string]any{"err": err != nil, "asOne": asOne}
-		if direct && refName != "" {
+		if direct && haveName {
 			out, txt = guard(func() {
 				servedNow := ds.NamedDocument(unstrip(refName))
 				_, known := inst[refName]
